@@ -12,7 +12,8 @@ META = {
     "shims": ["SymStream", "CRC policy / recorder", "NMEA_HDR one decision"],
     "bounds": {"quick": "14 stream templates of <=4 items (frames with 2/3/19/600/1023-byte payloads, NMEA, UBX, inert and FREE noise bytes); validate a free integer, parsed a "
                         "free boolean, error modes 0/1/2, label option 1/2; CRC bytes free when validation is off; every run compared inside one path with the reference run "
-                        "(validate=1, parsed=True, correct checksums)",
+                        "(validate=1, parsed=True, correct checksums); 5 templates with one frame carrying a wrong checksum: the validating reader (mode 2) must return "
+                        "exactly the other frames, the non-validating reader all of them",
                "thorough": "additionally all 2-item templates over 9 item kinds and four longer ones"},
     "outside": "streams outside the templates",
     "assumptions": ["reference run: the code's own CRC result over each generated frame assumed zero"],
@@ -35,6 +36,8 @@ def jobs(tier, seed):
         out.append(('parsed', t, (i + 1) % 3, 1))
     out += [('static', 4072, 4), ('static', 1005, 19), ('static', 1077, 0), ('static', 4072, 600)]
     out += [('tworeaders', 0), ('tworeaders', 1)]
+    out += [('damaged', ('R2', 'R4', 'R3'), 1), ('damaged', ('R4', 'R2'), 0), ('damaged', ('R3', 'D5', 'R2'), 1), ('damaged', ('R2', 'R19'), 1),
+            ('damaged', ('R4', 'N', 'R2'), 0)]
     return out
 
 
@@ -227,6 +230,68 @@ def run_parsed(spec, res):
     res['trunc'] = [t for t in res['trunc'] if t and t[0] != 'conc_limit']
 
 
+def run_damaged(spec, res):
+    """one frame of the stream carries a wrong checksum.  Reader A (validation off) must return every frame, reader B (validation on, errors
+    logged, iteration continues) every frame but the damaged one - the same bytes taken for every frame, i.e. B's frames are A's minus one."""
+    _, seq, dmg = spec
+    eng = sym.Engine(max_paths=4000, conc_limit=3)
+    eng.conc_prefer = [4072]
+    eng.time_budget = 200
+    H = {}
+
+    def fn():
+        data, items = build(eng, seq)
+        H['data'], H['items'] = data, items
+        runA = rdrdrv.iterate(shims.SymStream(data), mode=2, validate=0, max_calls=3 * len(data) + 8)
+        pol = streams.CrcPolicy(eng, items, damaged=(dmg,))
+        runB = rdrdrv.iterate(shims.SymStream(data), mode=2, validate=1, max_calls=3 * len(data) + 8, crc_hook=pol)
+        return runA, runB
+    for path in eng.explore(fn):
+        if path.kind == 'abort':
+            continue
+        res['obligations'] += 1
+        if path.kind != 'ret':
+            res['obligations'] -= 1
+            res['inconclusive' if path.kind != 'exc' else 'harness_errors'].append(f"{spec}: {path.kind} {str(path.value)[:80]}")
+            continue
+        runA, runB = path.value
+        frames = [it for it in H['items'] if it.frame]
+        # frames whose content cannot be decoded at all (D5: too short for its type) are errors for both readers
+        expA = [it for it in frames if it.kind != 'D5']
+        expB = [it for k, it in enumerate(frames) if k != dmg and it.kind != 'D5']
+        bad = None
+        for nm, run, exp in (("validation off", runA, expA), ("validation on", runB, expB)):
+            got = run.pairs()
+            if len(got) != len(exp) or not all(sym.same_bytes(list(g[0]), list(it.elems)) for g, it in zip(got, exp)):
+                bad = f"{nm}: returned {len(got)} frames, the stream holds {len(exp)} that this reader must return (or their bytes differ)"
+                break
+            if run.end != 'stop':
+                bad = f"{nm}: iteration ended with {run.end!r}"
+                break
+        if bad:
+            res['refuted'] += 1
+            if eng.check3() == 'sat':
+                m = eng.model()
+                from . import concrete
+                raw = bytearray(rdrdrv.model_bytes(m, H['data']))
+                k = 0
+                for it in H['items']:
+                    if it.frame:
+                        good = concrete.crc24q_ref(bytes(raw[it.start:it.end - 3])).to_bytes(3, "big")
+                        if k != dmg:
+                            raw[it.end - 3:it.end] = good
+                        elif bytes(raw[it.end - 3:it.end]) == good:
+                            raw[it.end - 1] ^= 1
+                        k += 1
+                res['cex'].append({'kind': 'options', 'option': 'damaged', 'data': bytes(raw).hex(), 'damaged': dmg,
+                                   'frames': [[it.start, it.end, it.kind != 'D5'] for it in H['items'] if it.frame], 'why': bad, 'dedup': f"damaged:{seq}:{bad[:30]}"})
+        else:
+            res['discharged'] += 1
+        res.count('option_paths')
+    res.absorb_engine(eng)
+    res['trunc'] = [t for t in res['trunc'] if t and t[0] != 'conc_limit']
+
+
 def run_static(spec, res):
     """RTCMReader.parse(f, validate=even) with arbitrary trailer == parse(f', validate=1) with the right trailer, term by term"""
     from pyrtcm.rtcmreader import RTCMReader
@@ -364,7 +429,7 @@ def run_two(spec, res):
 def run_job(spec):
     shims.install()
     res = JobResult(str(spec)[:70])
-    {'validate': run_validate, 'parsed': run_parsed, 'static': run_static, 'tworeaders': run_two}[spec[0]](spec, res)
+    {'validate': run_validate, 'parsed': run_parsed, 'static': run_static, 'tworeaders': run_two, 'damaged': run_damaged}[spec[0]](spec, res)
     if spec[0] in ('parsed', 'validate') and 'M11' in spec[1]:
         # concrete witnesses: MSM frames with awkward masks (reserved signal / unmapped satellite IDs) between ordinary frames
         from . import structs, concrete
